@@ -36,6 +36,7 @@ from explorerscript.ssb_converting.ssb_data_types import (
     SsbOpParam,
     NUMBER_OF_SPACES_PER_INDENT,
     SsbOpParamPositionMarker,
+    reset_param_indents,
 )
 from explorerscript.ssb_converting.ssb_special_ops import SsbLabelJump, SsbLabel
 from explorerscript.ssb_converting.util import Blk
@@ -79,6 +80,7 @@ class SsbScriptSsbDecompiler:
         self.indent = 0
         self._line_number = prefix.count("\n") + 1
         self._source_map_builder = SourceMapBuilder()
+        reset_param_indents(self._routine_ops)
 
         # Step 1: Build labels
         resolver = OpsLabelJumpToResolver(self._routine_ops)
